@@ -125,6 +125,12 @@ def main():
             h.fail('include_noisy_features.ensures.target_control_replicates_label', wit, f"{out.get('CONTROL-target')}")
         if any(not str(c).startswith('CONTROL-') for c in new) or len(new) < 10:
             h.fail('include_noisy_features.ensures.control_columns', wit, f'{new}')
+        # a second batch of the same size with other labels: the control column follows THIS batch
+        df2 = pd.DataFrame({'f': list(df['f']), 'label': [('1' if v == '0' else '0') for v in snap['label']]})
+        out2 = CR.include_noisy_features(df2, LOG, SimpleNamespace(label_column='label'))
+        if out2['CONTROL-target'].tolist() != df2['label'].tolist():
+            h.fail('include_noisy_features.ensures.target_control_replicates_label', dict(wit, second_batch_same_size=True),
+                   'the second batch carries the labels of the first one')
 
     # ------------------------------------------------------------------ transformations
     for case in range(6 if quick else 40):
@@ -162,14 +168,16 @@ def main():
             cols = ['mv', 'p', 'q', 'num', 'label']
             rows = [[','.join(rng.choice(['a', 'ab', 'b'], size=int(rng.integers(1, 3)))), str(rng.choice(['u', 'v'])), str(rng.choice(['s', 't', 'st'])),
                      str(round(float(rng.gamma(2.0, 10.0)), 2)), str(rng.integers(0, 2))] for _ in range(n)]
-            for flags in itertools.product([False, True], repeat=5):
+            for flags in list(itertools.product([False, True], repeat=5)) + [(False, False, False, False, False, '3mr'), (True, True, False, False, False, '3mr')]:
+                heur = 'MI-numba-3mr' if len(flags) == 6 else 'MI-numba-randomized'
+                flags = flags[:5]
                 mv, sub, inter, tr, noise = flags
                 args = SimpleNamespace(feature_set_focus=None, transformers='minimal' if tr else 'none', explode_multivalue_features='mv' if mv else 'False',
                                        subfeature_mapping='p->q;p<->q' if sub else 'False', interaction_order=2 if inter else 1, reference_model_JSON='',
-                                       heuristic='MI-numba-randomized', include_noise_baseline_features='True' if noise else 'False', label_column='label',
+                                       heuristic=heur, include_noise_baseline_features='True' if noise else 'False', label_column='label',
                                        missing_value_symbols=',{}', max_unique_hist_constraint=30000, task='ranking', combination_number_upper_bound=1000,
                                        rare_value_count_upper_bound=1)
-                wit = {'rows': rows, 'columns': cols, 'flags': dict(zip(['explode', 'subfeatures', 'interactions', 'transformers', 'noise'], flags))}
+                wit = {'rows': rows, 'columns': cols, 'heuristic': heur, 'flags': dict(zip(['explode', 'subfeatures', 'interactions', 'transformers', 'noise'], flags))}
                 CR.GLOBAL_PRIOR_COMB_COUNTS.clear()
                 try:
                     CR.compute_batch_ranking([list(r) for r in rows], {'num'}, args, None, cols, LOG, Pbar())
@@ -180,8 +188,10 @@ def main():
                     continue
                 src = pd.DataFrame(rows, columns=cols)
                 new = appended_only(h, 'compute_batch_ranking', src, src.copy(), captured['frame'], wit)
-                h.record(('pipe', case, flags), True)
+                h.record(('pipe', case, flags, heur), True)
                 fam = {'MULTIEX-': mv, 'SUBFEATURE': sub, ' AND ': inter, 'CONTROL-': noise}
+                if heur != 'MI-numba-randomized':
+                    fam = {'MULTIEX-': mv, 'SUBFEATURE': sub, 'CONTROL-': noise}
                 for marker, on in fam.items():
                     if any(marker in str(c) for c in new) != on and not (marker == ' AND ' and not inter):
                         h.fail('compute_batch_ranking.constructors_follow_flags', wit, f'{marker!r} columns present={not on}; new={new[:8]}')
